@@ -89,6 +89,14 @@ func lexProto(src string) ([]tok, error) {
 						b.WriteByte('\t')
 					case 'r':
 						b.WriteByte('\r')
+					case 'a':
+						b.WriteByte('\a')
+					case 'b':
+						b.WriteByte('\b')
+					case 'f':
+						b.WriteByte('\f')
+					case 'v':
+						b.WriteByte('\v')
 					case '\\', '\'', '"', '?':
 						b.WriteByte(e)
 					case 'x', 'X':
@@ -968,6 +976,7 @@ func descFromSource(src string) (*Desc, error) {
 	if firstErr != nil {
 		return nil, firstErr
 	}
+	d.normalise()
 	d.sort()
 	return d, nil
 }
